@@ -267,3 +267,48 @@ Proof.
   destruct y; cbn [init_chain] in Hy; try discriminate Hy;
     destruct (Bool.eqb o o0); try discriminate Hy; injection Hy as <-; repeat constructor.
 Qed.
+
+(* ------------------------------------------------------------------ ZSTD_resetCStream, ZSTD_initCStream_usingCDict_advanced *)
+(* ZSTD_resetCStream(pss): in every stage, parameters and dictionary kept, init stage, pledge pss with 0 = unknown *)
+Lemma reset_cstream_exact_l : forall w o pss,
+  let c := xget_c w o in
+  vw (fst (ystep w (YResetCS o pss))) o = (mkC (c_params c) S_init (c_dict c) (c_static c), u64 (pss0 pss + 1))
+  /\ fst (snd (ystep w (YResetCS o pss))) = Ok.
+Proof.
+  intros w o pss c. cbn [ystep].
+  destruct (v_reset w o) as [V1 R1]. rewrite xseq_cons, R1.
+  set (w1 := fst (xstep w (reset_session o))) in *.
+  apply vw_split in V1. destruct V1 as [E1 P1].
+  assert (S1 : c_stage (xget_c w1 o) = S_init) by (rewrite E1; reflexivity).
+  destruct (v_pledge w1 o (pss0 pss) S1) as [V2 R2]. rewrite xseq_cons, R2. cbn [xseq fst snd].
+  split; [|reflexivity]. rewrite V2, E1. reflexivity.
+Qed.
+
+Lemma pss0_unknown : u64 (pss0 0 + 1) = 0.
+Proof. vm_compute. reflexivity. Qed.
+
+(* ZSTD_initCStream_usingCDict_advanced: the three frame flags are stored as given (no normalisation, no bound check), every
+   other parameter is kept, the CDict replaces whatever was attached, the pledge is taken as given (0 = an empty source) *)
+Lemma init_cdict_advanced_exact_l : forall w o k fp pss,
+  let c := xget_c w o in
+  vw (fst (ystep w (YInitCDictAdv o k fp pss))) o
+    = (mkC (store_fparams (c_params c) fp) S_init (if k =? 0 then CD_none else CD_cdict) (c_static c), u64 (pss + 1))
+  /\ fst (snd (ystep w (YInitCDictAdv o k fp pss))) = Ok.
+Proof.
+  intros w o k fp pss c. cbn [ystep].
+  destruct (v_reset w o) as [V1 R1]. rewrite xseq_cons, R1.
+  set (w1 := fst (xstep w (reset_session o))) in *.
+  apply vw_split in V1. destruct V1 as [E1 P1].
+  assert (S1 : c_stage (xget_c w1 o) = S_init) by (rewrite E1; reflexivity).
+  destruct (v_pledge w1 o pss S1) as [V2 R2]. rewrite xseq_cons, R2. cbn [xseq].
+  set (w2 := fst (xstep w1 (XPledge o pss))) in *.
+  apply vw_split in V2. destruct V2 as [E2 P2].
+  set (w3 := xput_params w2 o (store_fparams (c_params (get_c (xw_base w2) o)) fp)).
+  pose proof (v_put_params w2 o (store_fparams (c_params (get_c (xw_base w2) o)) fp)) as V3. cbn zeta in V3. fold w3 in V3.
+  apply vw_split in V3. destruct V3 as [E3 P3].
+  assert (S3 : c_stage (xget_c w3 o) = S_init) by (rewrite E3; cbn; rewrite E2; exact S1).
+  destruct (v_refcdict w3 o k S3) as [V4 R4].
+  destruct (xstep w3 (XB (OCRefCDict o k))) as [w4 [r4 vals]] eqn:E4. cbn [fst snd] in V4, R4. subst r4. cbn [fst snd].
+  split; [|reflexivity]. rewrite V4. unfold vw. cbn [snd]. rewrite P3. unfold vw. cbn [snd]. rewrite P2, E3.
+  fold (xget_c w2 o). rewrite E2, E1. reflexivity.
+Qed.
